@@ -40,7 +40,7 @@ theorem Node.entries_filter_cons (msg : Option Msg) (cs : List (Level × Node)) 
     simp only [List.filter_map, List.map_map]
     by_cases hc : (g == plus || g == a) = true
     · rw [if_pos hc]
-      have : ((fun e : List Level × Msg => levelMatchB (g :: rest) e.1) ∘ fun e => (a :: e.1, e.2)) =
+      have : ((fun e : List Level × Msg => levelMatchB (g :: rest) e.1) ∘ fun e : List Level × Msg => (a :: e.1, e.2)) =
           fun e => levelMatchB rest e.1 := by
         funext e
         simp only [Function.comp, levelMatchB, hg, if_false, hc, Bool.true_and]
@@ -48,7 +48,7 @@ theorem Node.entries_filter_cons (msg : Option Msg) (cs : List (Level × Node)) 
       apply List.map_congr_left
       intro e _; rfl
     · rw [if_neg hc]
-      have : ((fun e : List Level × Msg => levelMatchB (g :: rest) e.1) ∘ fun e => (a :: e.1, e.2)) =
+      have : ((fun e : List Level × Msg => levelMatchB (g :: rest) e.1) ∘ fun e : List Level × Msg => (a :: e.1, e.2)) =
           fun _ => false := by
         funext e
         have hc' : (g == plus || g == a) = false := by simpa using hc
@@ -75,8 +75,9 @@ theorem flatMap_key {β : Type} (cs : List (Level × Node)) (hk : keysNodup cs) 
       have : t.flatMap (fun kc => if (a == kc.1) = true then X kc.2 else []) = [] := by
         rw [ih hk.2, childGet_none_of_not_mem hk.1]
       rw [this]; simp
-    · have e' : (g == a) = false := by simpa [eq_comm] using e
-      simp only [e', e, if_false, List.nil_append, Bool.false_eq_true]
+    · have e' : (g == a) = false := beq_eq_false_iff_ne.2 (fun h => e h.symm)
+      rw [e', if_neg e]
+      simp only [Bool.false_eq_true, if_false, List.nil_append]
       exact ih hk.2
 
 theorem hashLast_cons {g : Level} {rest : List Level} (h : hashLast (g :: rest) = true) :
@@ -106,7 +107,7 @@ theorem Node.matchTopic_eq {n : Node} (hw : n.WF) (f : List Level) (hf : f ≠ [
       rw [Node.preOrder_eq]
       have : (fun e : List Level × Msg => levelMatchB [hash] e.1) = fun _ => true := by
         funext e; simp [levelMatchB]
-      rw [this, List.filter_true]
+      rw [this, List.filter_eq_self.2 (by simp)]
     · rw [if_neg hg, Node.entries_filter_cons msg cs g rest hg]
       -- what the code does with one child = the matching entries below that child
       have child : ∀ kc ∈ cs, (if rest.isEmpty = true then kc.2.msg.toList else kc.2.matchTopic rest) =
